@@ -42,7 +42,7 @@ def main():
                 print('MUTANT %s: pattern not found (stale catalogue)' % m['name'])
                 res.append((m['name'], 'stale'))
                 continue
-            env = dict(os.environ, VERIF_REPO=repo, VERIF_OUT=os.path.join(base, 'out'))
+            env = dict(os.environ, VERIF_REPO=repo, VERIF_OUT=os.path.join(base, 'out'), VERIF_NOSHRINK=os.environ.get('MUT_SHRINK', '') and '' or '1')
             try:
                 p = subprocess.run([os.path.join(VERIF, 'run_check.py'), pid, '--tier', tier],
                                    env=env, stdout=subprocess.PIPE, stderr=subprocess.STDOUT, text=True)
